@@ -30,7 +30,19 @@ fn emit(v: &mut Vec<u8>, i: Insn) {
     v.extend(encode(&i));
 }
 
+/// A tunable tail (count-down loop of `n` iterations followed by fillers of three different charges) that
+/// lets the harness place the program's total exactly where it wants it relative to a sync threshold.
+#[derive(Clone, Copy, Debug, Default)]
+pub struct Tune {
+    pub n: u32,
+    pub fill: [u32; 3],
+}
+
 pub fn build_guest(e: &mut Ent) -> Guest {
+    build_guest_tuned(e, None)
+}
+
+pub fn build_guest_tuned(e: &mut Ent, tune: Option<&Tune>) -> Guest {
     let mut c: Vec<u8> = vec![];
     let mut features: Vec<&'static str> = vec![];
     // data area right after the code (inside the segment's bss)
@@ -170,8 +182,26 @@ pub fn build_guest(e: &mut Ent) -> Guest {
         emit(&mut c, Insn::Load { sz: Sz::B, ea: Ea::A8(0x88), d: 12 });
         emit(&mut c, Insn::Load { sz: Sz::B, ea: Ea::A8(0x82), d: 4 });
     }
+    if let Some(t) = tune {
+        features.push("tuned total");
+        emit(&mut c, Insn::MovImm { sz: Sz::L, imm: t.n.max(1), d: 5 });
+        let top = c.len();
+        emit(&mut c, Insn::Un { op: UnOp::Dec1, sz: Sz::L, d: 5 });
+        let disp = top as i32 - (c.len() as i32 + 2);
+        emit(&mut c, Insn::Bcc { cond: 6, disp, wide: false });
+        // fillers: I1 (8 states), BRN d:16 (I2 N2 = 18), MULXU.B (I1 N12 = 20) - times 3 in the run loop
+        for _ in 0..t.fill[0] {
+            emit(&mut c, Insn::MovRR { sz: Sz::B, s: 14, d: 14 });
+        }
+        for _ in 0..t.fill[1] {
+            emit(&mut c, Insn::Bcc { cond: 1, disp: 0, wide: true });
+        }
+        for _ in 0..t.fill[2] {
+            emit(&mut c, Insn::Mulxu { sz: Sz::B, s: 14, d: 6 });
+        }
+    }
     // a failing instruction at the end of some programs
-    let fails = e.chance(1, 6);
+    let fails = tune.is_none() && e.chance(1, 6);
     if fails {
         features.push("failing instruction");
         match e.below(3) {
@@ -267,6 +297,11 @@ pub fn run_a(g: &Guest, tag: &str) -> Result<(Machine, Final), String> {
 pub struct BInfo {
     pub steps: u64,
     pub syncs: usize,
+    /// charge (already x3) of the last executed instruction
+    pub last_charge: u64,
+    /// the last instruction is the one that crossed a threshold / the total is an exact multiple
+    pub sync_on_last: bool,
+    pub exact_multiple: bool,
 }
 
 /// (B) the accounting of the statement, re-implemented on top of single steps (hooks), in lockstep with
@@ -295,6 +330,8 @@ pub fn run_b(g: &Guest, tag: &str, max_steps: u64) -> Result<(Machine, Final, BI
     let mut result: Result<(), String> = Ok(());
     let mut steps = 0u64;
     let mut syncs = 0usize;
+    let mut last_charge = 0u64;
+    let mut sync_on_last = false;
     loop {
         if steps >= max_steps {
             return Err(format!("generator error: program did not end within {} instructions", max_steps));
@@ -375,9 +412,12 @@ pub fn run_b(g: &Guest, tag: &str, max_steps: u64) -> Result<(Machine, Final, BI
         total += state;
         cpu.bus.cpu_state_sum = total as usize;
         expected.extend(m.rx.try_iter());
+        last_charge = state;
+        sync_on_last = false;
         if total / SYNC > before / SYNC {
             expected.push(format!("sync:{}", total));
             syncs += 1;
+            sync_on_last = true;
         }
         let mut rest = state;
         while rest > 0 {
@@ -404,7 +444,86 @@ pub fn run_b(g: &Guest, tag: &str, max_steps: u64) -> Result<(Machine, Final, BI
         }
     }
     let f = Final { result, er: cpu.er, ccr: hooks::ccr(cpu), pc: hooks::pc(cpu), total, msgs: expected };
-    Ok((m, f, BInfo { steps, syncs }))
+    let exact_multiple = total > 0 && total % SYNC == 0;
+    Ok((m, f, BInfo { steps, syncs, last_charge, sync_on_last, exact_multiple }))
+}
+
+/// Tune the tail so that (variant 0) the program's last instruction is the one that crosses a sync
+/// threshold, (1) the total is exactly a multiple of the interval, (2) the total ends just below one.
+pub fn tuned_guest(raw: &[u32], variant: u32, tag: &str) -> Option<Guest> {
+    let base_n = 2000u32;
+    let probe = |n: u32| -> Option<(u64, u64)> {
+        let g = build_guest_tuned(&mut Ent::new(raw), Some(&Tune { n, fill: [0, 0, 0] }));
+        let (_, f, info) = run_b(&g, tag, 3_000_000).ok()?;
+        if f.result.is_err() {
+            return None;
+        }
+        Some((f.total, info.last_charge))
+    };
+    let (t0, last) = probe(base_n)?;
+    let (t1, _) = probe(base_n + 1000)?;
+    if t1 <= t0 || (t1 - t0) % 1000 != 0 {
+        return None; // the per-iteration cost is not constant (e.g. a timer interrupt lands in the loop)
+    }
+    let c = (t1 - t0) / 1000;
+    let fills: [u64; 3] = [24, 54, 60];
+    // thresholds: the first multiple comfortably above the untuned total; exact hits need a multiple of 6
+    let mut k = (t0 + 400 * c) / SYNC + 1;
+    if variant == 1 {
+        while (k * SYNC) % 6 != t0 % 6 {
+            k += 1;
+            if k > 6 {
+                return None;
+            }
+        }
+    }
+    let goal_total: u64 = match variant {
+        0 => {
+            // total in [k*SYNC, k*SYNC + last): the last instruction crosses
+            let mut t = k * SYNC;
+            while t % 6 != t0 % 6 {
+                t += 1;
+            }
+            if t >= k * SYNC + last {
+                return None;
+            }
+            t
+        }
+        1 => k * SYNC,
+        _ => {
+            let mut t = k * SYNC - 1;
+            while t % 6 != t0 % 6 {
+                t -= 1;
+            }
+            t
+        }
+    };
+    // goal_total = t0 + c*(n - base_n) + R with R in [144, 144 + c): representable by the fillers
+    let need = goal_total.checked_sub(t0)?;
+    let mut iters = (need.checked_sub(144)?) / c;
+    loop {
+        let r = need - iters * c;
+        // small search for 24a + 54b + 60d == r
+        for b in 0..8u64 {
+            for d in 0..8u64 {
+                let rest = r.checked_sub(54 * b + 60 * d);
+                if let Some(rest) = rest {
+                    if rest % 24 == 0 && rest / 24 < 40 {
+                        let n = base_n as u64 + iters;
+                        if n > 3_000_000 {
+                            return None;
+                        }
+                        let tune = Tune { n: n as u32, fill: [(rest / fills[0]) as u32, b as u32, d as u32] };
+                        return Some(build_guest_tuned(&mut Ent::new(raw), Some(&tune)));
+                    }
+                }
+            }
+        }
+        if iters == 0 || need - (iters - 1) * c > 144 + 4 * c {
+            return None;
+        }
+        iters -= 1;
+    }
 }
 
 fn same_memory(a: &Cpu, b: &Cpu) -> Option<String> {
@@ -532,9 +651,18 @@ pub fn run(ctx: &Ctx) -> i32 {
         let mut k = 0u32;
         let kc = std::cell::Cell::new(0u32);
         let _ = run_prop(mix(ctx.seed, 0x1301_0000 + shard as u64), n / nshards as u32, &ent, |raw, shrinking| {
-            let g = build_guest(&mut Ent::new(raw));
             kc.set(kc.get() + 1);
             let tag = format!("c13-{}-{}", shard, kc.get());
+            // every third case: the total is placed exactly at a sync threshold (crossed by the last
+            // instruction / exact multiple / just below)
+            let g = if kc.get() % 3 == 0 {
+                match tuned_guest(raw, (kc.get() / 3) % 3, &format!("{}t", tag)) {
+                    Some(g) => g,
+                    None => build_guest(&mut Ent::new(raw)),
+                }
+            } else {
+                build_guest(&mut Ent::new(raw))
+            };
             let r = judge(&g, &tag);
             let mut st = stats.borrow_mut();
             match r {
@@ -547,11 +675,17 @@ pub fn run(ctx: &Ctx) -> i32 {
                         }
                         let has_msg = fa.msgs.iter().any(|m| m.starts_with("ioport:") || m.starts_with("stdout:"));
                         st.class(&format!("sync thresholds crossed: {}", info.syncs.min(4)));
+                        if info.sync_on_last {
+                            st.class("the program's last instruction crosses a sync threshold");
+                        }
+                        if info.exact_multiple {
+                            st.class("total is an exact multiple of the sync interval");
+                        }
                         if info.syncs >= 1 || has_msg || g.fails {
                             st.nontrivial(key_hash(&g.file), || json!({"features": g.features, "instructions": info.steps, "total_states": fa.total, "messages": fa.msgs.iter().take(8).collect::<Vec<_>>(), "result": format!("{:?}", fa.result)}));
                         }
                         // remember some for the determinism phase
-                        if kc.get() % 3 == 0 {
+                        if kc.get() % 3 == 1 {
                             if let Ok((ma, f2)) = run_a(&g, &format!("{}d", tag)) {
                                 collected.lock().unwrap().push((g.clone(), digest(&f2, &ma.cpu)));
                                 if f2 != fa {
